@@ -2,7 +2,9 @@
 import base64, json, os, re
 from lib import fw
 
-MODULES = ["SunriseVerif.Props.C15", "SunriseVerif.Witness.C15", "SunriseVerif.Props.ParamGuards", "SunriseVerif.Props.ParamGuardsSwap"]
+MODULES = ["SunriseVerif.Props.C15", "SunriseVerif.Witness.C15", "SunriseVerif.Props.ParamGuards", "SunriseVerif.Props.ParamGuardsSwap",
+           # range assertions of cosmossdk.io/math: `f_rng` guards regenerated next to every kernel; no range panic inside the input boxes
+           "SunriseVerif.Props.C15Range"]
 
 
 def feats(f):
@@ -42,7 +44,13 @@ def report(ctx, res):
 def run(ctx):
     if not ctx.translate():
         return
-    ok = ctx.prove(MODULES, needs_gen=["KernelsParamsSwap"])
+    ok = ctx.prove(MODULES, needs_gen=["KernelsParamsSwap", "KernelsCL", "KernelsSwap"])
+    # the regenerated range guards against the Go functions: a range-assertion panic of cosmossdk.io/math <=> not f_rng,
+    # on operands on both sides of every bound (2^63, 2^64, 2^256, 2^256*10^18); per-kernel counts go into the evidence
+    mism = ctx.kernel_diff("dec,cl", 2500 if ctx.thorough() else 300, label="kernel_range")
+    if mism:
+        ctx.fail("correspondence", "kernel differential (Go range assertions vs regenerated f_rng / f_ok guards)", str(mism[:3]),
+                 replay={"kernel_mismatches": mism[:20]})
     n = 600 if ctx.thorough() else 20          # thousands of inputs
     res = fw.corr(ctx, "untrusted", n, timeout=1500)
     report(ctx, res)
